@@ -38,6 +38,9 @@ type Ev struct {
 	K    string `json:"k"`              // chain | trigger | success | fail | tick
 	Tip  int    `json:"tip,omitempty"`  // chain: plan index of the new best tip
 	Kind string `json:"kind,omitempty"` // fail: drop | wrong | nonode
+	// trigger: while the round it starts is still walking back from the tip (inside its first
+	// processed-block lookup), the best chain grows to WalkTip and a second trigger arrives
+	WalkTip int `json:"walk_tip,omitempty"`
 }
 
 type Case struct {
@@ -55,11 +58,19 @@ type Case struct {
 
 type memBlockTxs struct {
 	sync.Mutex
-	m     map[bitcoin.Hash32][]bitcoin.Hash32
-	order []bitcoin.Hash32
+	m      map[bitcoin.Hash32][]bitcoin.Hash32
+	order  []bitcoin.Hash32
+	onNext func() // one-shot: runs inside the next lookup, before it answers
 }
 
 func (b *memBlockTxs) FetchBlockTxIDs(ctx context.Context, h bitcoin.Hash32) ([]bitcoin.Hash32, bool, error) {
+	b.Lock()
+	f := b.onNext
+	b.onNext = nil
+	b.Unlock()
+	if f != nil {
+		f()
+	}
 	b.Lock()
 	defer b.Unlock()
 	l, ok := b.m[h]
@@ -375,6 +386,21 @@ func runCase(c *Case) {
 			default:
 				running = true
 			}
+			var walkChain []string
+			if e.WalkTip != 0 && !running {
+				tip := e.WalkTip
+				w.btx.Lock()
+				w.btx.onNext = func() {
+					if !w.setChain(tip) {
+						c.note = "chain change during the walk did not take"
+					}
+					for _, x := range w.chain() {
+						walkChain = append(walkChain, fmt.Sprint(x))
+					}
+					w.nm.TriggerBlockSynchronize(ctx)
+				}
+				w.btx.Unlock()
+			}
 			if !running {
 				w.watchIdleAfter(func() {
 					if w.first {
@@ -389,6 +415,29 @@ func runCase(c *Case) {
 				w.nm.TriggerBlockSynchronize(ctx)
 			}
 			evs = append(evs, "ETrigger")
+			if walkChain != nil {
+				evs = append(evs, "EChain "+coqfmt.List(walkChain), "ETrigger")
+			} else if e.WalkTip != 0 && !running {
+				// the round made no lookup at all (tip below the start height), so the hook did not
+				// run: the headers and their trigger arrive right after the round instead
+				w.btx.Lock()
+				w.btx.onNext = nil
+				w.btx.Unlock()
+				w.rest(500*time.Millisecond, nil)
+				if !w.setChain(e.WalkTip) {
+					c.note = "chain change did not take"
+				}
+				var ch []string
+				for _, x := range w.chain() {
+					ch = append(ch, fmt.Sprint(x))
+				}
+				w.src.Lock()
+				before2 := w.src.pending
+				w.src.Unlock()
+				w.watchIdleAfter(func() { w.nm.TriggerBlockSynchronize(ctx) })
+				w.rest(3*time.Second, before2)
+				evs = append(evs, "EChain "+coqfmt.List(ch), "ETrigger")
+			}
 		case "success", "fail":
 			w.src.Lock()
 			p := w.src.pending
@@ -609,6 +658,20 @@ func genCase(r *coqfmt.Rand, id int, tier string) Case {
 						c.Ops = append(c.Ops, Ev{K: "chain", Tip: tip})
 					}
 				}
+			}
+			if r.Chance(1, 5) { // new headers and their trigger arrive while the round is still walking back
+				startRound()
+				k := 1 + r.Intn(2)
+				for i := 0; i < k; i++ {
+					tip = add(tip, c.Blks[tip].Heavy)
+				}
+				chain = chainTo(tip)
+				c.Ops = append(c.Ops, Ev{K: "trigger", WalkTip: tip})
+				flag = true
+				if len(rem) == 0 {
+					endRound()
+				}
+				continue
 			}
 			c.Ops = append(c.Ops, Ev{K: "trigger"})
 			startRound()
